@@ -29,7 +29,8 @@ StepT(e) ==
                             IF x.ok /\ x.e.impl \notin {"X5", "X6"} THEN [ok |-> TRUE, reg |-> reg, insts |-> Append(insts, FreshOf(x.e)), app |-> FALSE]
                             ELSE [ok |-> x.ok, reg |-> reg, insts |-> insts, app |-> FALSE]
     [] e.op = "DecodeJSON" -> LET x == DispatchJSON(reg, bat.j[e.ix].doc) IN [ok |-> x.r = "ok", reg |-> reg, insts |-> insts, app |-> x.r = "ok"]
-    [] e.op = "DecodeCBOR" -> LET x == DispatchCBOR(reg, bat.c[e.ix].tok) IN
+    \* DecodeCOSE: the same token as the payload of an envelope, decoded by ONE reused Evidence
+    [] e.op \in {"DecodeCBOR", "DecodeCOSE"} -> LET x == DispatchCBOR(reg, bat.c[e.ix].tok) IN
                               [ok |-> IF x.r = "open" THEN e.retOK ELSE x.r = "ok", reg |-> reg, insts |-> insts, app |-> e.retOK]
     [] e.op = "Mutate"   -> IF e.ix > Len(insts) THEN [ok |-> FALSE, reg |-> reg, insts |-> insts, app |-> FALSE]
                             ELSE IF e.how = "poke"       \* in-place writes through the instance's own pointers: its new value is
